@@ -18,6 +18,11 @@ import fsops
 import genhist
 from common import tok
 
+# TODO(main): signatures of misbehaviour of the UNCHANGED library exposed by the new coverage; they are routed
+# through report.known_match() (printed as KNOWN-FINDING once registered in known_findings.json) and, until
+# then, kept from failing the check by this list.
+PENDING_FINDINGS = []   # (the touch-on-a-lower-layer-file finding is registered in known_findings.json)
+
 LOGGED = ("getinfo", "listdir", "makedir", "openbin", "remove", "removedir", "setinfo", "scandir",
           "open", "makedirs", "move", "copy", "movedir", "copydir", "removetree", "exists", "isdir",
           "isfile", "upload", "download", "writebytes", "readbytes", "writetext", "readtext",
@@ -55,7 +60,43 @@ def prefill(m, rnd, tag):
         m.writebytes("shared", tag.encode())
 
 
-MOUNT_POINTS = ["/", "/a", "/ab", "/a/b", "/c", "c/", "a//b/../b"]
+MOUNT_TARGETS = ["/a", "/ab", "/a/b", "/c", "/"]
+
+
+def _sp(root, one, many=None):
+    """Spelling of a normalised absolute path: (text for the root, f(body) for one component, f(comps) for more)."""
+    def f(norm):
+        comps = [c for c in norm.split("/") if c]
+        if not comps:
+            return root
+        if len(comps) > 1 and many is not None:
+            return many(comps)
+        return one("/".join(comps))
+    return f
+
+
+# every way of writing the same location; the two 'climb' classes leave the root and must be refused
+SPELLINGS = [
+    ("abs", _sp("/", lambda b: "/" + b)),
+    ("rel", _sp("", lambda b: b)),
+    ("abs-trailing-slash", _sp("/", lambda b: "/" + b + "/")),
+    ("rel-trailing-slash", _sp("./", lambda b: b + "/")),
+    ("dot-lead", _sp(".", lambda b: "./" + b)),
+    ("dot-tail", _sp("/.", lambda b: "/" + b + "/.")),
+    ("dot-mid", _sp("/./", lambda b: "/./" + b, lambda cs: "/" + "/./".join(cs))),
+    ("double-slash-lead", _sp("//", lambda b: "//" + b)),
+    ("double-slash-mid", _sp("/.//", lambda b: b + "//", lambda cs: "//".join(cs))),
+    ("dotdot-lead", _sp("zz/..", lambda b: "zz/../" + b)),
+    ("dotdot-lead-abs", _sp("/zz/../", lambda b: "/zz/../" + b)),
+    ("dotdot-mid", _sp("/zz/yy/../..", lambda b: "/zz/.././" + b,
+                       lambda cs: cs[0] + "/zz/../" + "/".join(cs[1:]))),
+    ("dotdot-tail", _sp("zz/../", lambda b: b + "/zz/..")),
+    ("climb-above-root", _sp("..", lambda b: "../" + b)),
+    ("climb-above-root-inside", _sp("/zz/../../", lambda b: "/" + b + "/.." * (b.count("/") + 2) + "/" + b)),
+]
+SPELL = dict(SPELLINGS)
+STAYING = [n for n, _ in SPELLINGS if not n.startswith("climb")]
+CLIMBING = [n for n, _ in SPELLINGS if n.startswith("climb")]
 
 
 def snap(m):
@@ -66,10 +107,14 @@ def mount_cases(rnd, n, thorough):
     cases = []
     sets = []
     for k in (1, 2, 3):
-        for combo in itertools.permutations(["/a", "/ab", "/a/b", "/c", "/"], k):
+        for combo in itertools.permutations(MOUNT_TARGETS, k):
             sets.append(list(combo))
     for _ in range(n):
-        mps = rnd.choice(sets)
+        mps = list(rnd.choice(sets))
+        # the mount-point argument is a path like any other: half of them are written in a non-normal form
+        for i in range(len(mps)):
+            if rnd.random() < 0.5:
+                mps[i] = SPELL[rnd.choice(STAYING if rnd.random() < 0.9 else CLIMBING)](mps[i])
         g = genhist.Gen(rnd, odd=0.2, spell=0.25)
         # seed the generator's shadow so that paths below the mount points are likely
         for mp in mps:
@@ -84,12 +129,13 @@ def mount_cases(rnd, n, thorough):
 def run_mount_case(case, rnd_seed):
     from fs.mountfs import MountFS
     from fs.memoryfs import MemoryFS
-    mps, hist, _ = case
+    mps, hist = case[0], case[1]
     rnd = random.Random(rnd_seed)
     log = []
     mf = MountFS()
     members = []
     accepted = []
+    refusals = []
     for i, mp in enumerate(mps):
         inner = MemoryFS()
         prefill(inner, rnd, str(i))
@@ -98,7 +144,7 @@ def run_mount_case(case, rnd_seed):
             mf.mount(mp, rec)
             accepted.append(i)
         except Exception as e:
-            accepted.append(None) if False else None
+            refusals.append((i, "err:" + type(e).__name__))
         members.append(inner)
     out = []
     for o in hist:
@@ -111,12 +157,44 @@ def run_mount_case(case, rnd_seed):
         out.append(dict(op=o, outcome=res, log=list(log), touched=touched, changed=changed,
                         default_changed=snap(mf.default_fs) != default_before))
     mf.close()
-    return accepted, out
+    return accepted, refusals, out
+
+
+MODEL_CACHE = {}
+
+
+def model_prefetch(lines):
+    """One driver process for many questions (a process start costs ~40 ms)."""
+    todo = sorted(set(l for l in lines if l not in MODEL_CACHE))
+    if todo:
+        for l, a in zip(todo, common.run_model_parallel(todo)):
+            MODEL_CACHE[l] = a
+
+
+def model_ask(line):
+    if line not in MODEL_CACHE:
+        MODEL_CACHE[line] = common.run_model([line])[0]
+    return MODEL_CACHE[line]
+
+
+def route_line(mps, path):
+    return ("route mount %s %d %s" % (tok(path), len(mps), " ".join(tok(m) for m in mps))).rstrip()
+
+
+def mountable_line(mps):
+    return "route mountable " + " ".join(tok(m) for m in mps)
+
+
+def parse_nats(s):
+    return [int(x[1:]) for x in s[1:-1].split(";") if x]
+
+
+def order_line(prios):
+    return "route order " + " ".join(("1 %d" % -p) if p < 0 else ("0 %d" % p) for p in prios)
 
 
 def model_route(mps, path):
-    line = "route mount %s %d %s" % (tok(path), len(mps), " ".join(tok(m) for m in mps))
-    return common.run_model([line])[0]
+    return model_ask(route_line(mps, path))
 
 
 def paths_of(o):
@@ -173,8 +251,7 @@ def run_multi_case(case, seed):
         prefill(inner, rnd, str(i))
         members.append(inner)
         mf.add_fs("m%d" % i, make_recorder(log, i)(inner), write=(write == i), priority=p)
-    order_line = "route order " + " ".join(("1 %d" % -p) if p < 0 else ("0 %d" % p) for p in prios)
-    order = [int(x[1:]) for x in common.run_model([order_line])[0][1:-1].split(";") if x]
+    order = parse_nats(model_ask(order_line(prios)))
     bad = []
     steps = 0
     for o in hist:
@@ -250,6 +327,620 @@ def run_multi_case(case, seed):
     return steps, bad, order
 
 
+# --------------------------------------------------------------------------- MountFS: spellings sweep
+#
+# mount-point spelling class x call-path spelling class, with the twin oracle: the call on the MountFS must have
+# the outcome and the effect of the same call made directly on the routed member with the relative path (or on
+# the default tree with the raw path), where member and relative path come from the extracted routing model.
+
+SINGLE_OPS = [
+    lambda p: ("exists", p), lambda p: ("isdir", p), lambda p: ("isfile", p), lambda p: ("getinfo", p),
+    lambda p: ("listdir", p), lambda p: ("scandir", p), lambda p: ("readbytes", p), lambda p: ("getsize", p),
+    lambda p: ("gettype", p), lambda p: ("isempty", p), lambda p: ("openread", p, "rb"),
+    lambda p: ("writebytes", p, b"W"), lambda p: ("appendbytes", p, b"A"), lambda p: ("makedir", p, False),
+    lambda p: ("makedir", p, True), lambda p: ("create", p, True), lambda p: ("touch", p),
+    lambda p: ("openwrite", p, "w", b"O"), lambda p: ("openwrite", p, "a", b"P"), lambda p: ("setinfo", p, 3),
+    lambda p: ("remove", p), lambda p: ("removedir", p),
+]
+# pairs (earlier target, later target): the later one lies onto / inside the earlier one, or is unrelated
+OVERLAPS = [("/a", "/a"), ("/a", "/a/b"), ("/", "/c"), ("/", "/"), ("/a/b", "/a"), ("/a", "/ab"), ("/ab", "/a/b")]
+
+
+def call_targets(targets):
+    out = ["/", "/x", "/zz/new", "/top0", "/ab", "/a/bc", "/a", "/c"]
+    for t in targets:
+        b = t.rstrip("/")
+        out += [t, b + "/top0", b + "/top1", b + "/top2", b + "/shared", b + "/a", b + "/a/f0", b + "/ab/f1",
+                b + "/new", b + "/new/deep", b + "x", b + "/x/f0", b + "/a/b", b + "/c/f1"]
+    return out
+
+
+def spelling_fixtures(rnd, thorough):
+    """[(mount-point arguments, their classes, [(call, call-path class)])] covering every pair of classes."""
+    names = [n for n, _ in SPELLINGS]
+    fixtures = []
+    rounds = 4 if thorough else 1
+
+    def calls_for(targets, cclass, k):
+        cs = []
+        for _ in range(k):
+            p = SPELL[cclass](rnd.choice(call_targets(targets)))
+            cs.append((rnd.choice(SINGLE_OPS)(p), cclass))
+        return cs
+    for _ in range(rounds):
+        # (a) every mount-point class x every call-path class
+        for mclass in names:
+            for cclass in names:
+                k = rnd.choice([1, 1, 2, 2, 3])
+                targets = [rnd.choice(MOUNT_TARGETS) for _ in range(k)]
+                classes = [rnd.choice(STAYING) if rnd.random() < 0.6 else "abs" for _ in range(k)]
+                classes[rnd.randrange(k)] = mclass
+                args = [SPELL[c](t) for c, t in zip(classes, targets)]
+                calls = calls_for(targets, cclass, 5 if thorough else 3)
+                # always one call right below the point written in class mclass
+                t = targets[classes.index(mclass)]
+                calls.append((rnd.choice(SINGLE_OPS)(SPELL[cclass](t.rstrip("/") + "/" + rnd.choice(
+                    ["top0", "top1", "shared", "new", "a/f0"]))), cclass))
+                fixtures.append((args, classes, calls))
+        # (b) every mount-point class for a point that normalises onto / into / next to an earlier mount
+        for mclass in names:
+            for first, second in OVERLAPS:
+                c0 = rnd.choice(STAYING)
+                args = [SPELL[c0](first), SPELL[mclass](second)]
+                cclass = rnd.choice(names)
+                fixtures.append((args, [c0, mclass], calls_for([first, second], cclass, 3)))
+    return fixtures
+
+
+def op_with_path(o, p):
+    return (o[0], p) + tuple(o[2:])
+
+
+def run_spelling_fixture(fx, seed, bad, stats):
+    """Mount, then replay the calls on the MountFS and on the twin members; appends findings to bad."""
+    from fs.mountfs import MountFS
+    from fs.memoryfs import MemoryFS
+    import fs.path as P
+    args, classes, calls = fx
+    ctx = dict(mount_arguments=args, mount_classes=classes)
+    expected_ok = parse_nats(model_ask(mountable_line(args)))
+    log = []
+    mf = MountFS()
+    members, twins, accepted = [], [], []
+    for i, mp in enumerate(args):
+        inner, twin = MemoryFS(), MemoryFS()
+        prefill(inner, random.Random("%d/%d" % (seed, i)), str(i))
+        prefill(twin, random.Random("%d/%d" % (seed, i)), str(i))
+        members.append(inner)
+        twins.append(twin)
+        try:
+            mf.mount(mp, make_recorder(log, i)(inner))
+            accepted.append(i)
+            res = "ok"
+        except Exception as e:  # noqa
+            res = "err:" + type(e).__name__
+        stats["mounts"] += 1
+        # documented: refused (MountError) inside an existing mount; a point above the root is not a path
+        if i in expected_ok:
+            exp = "ok"
+        elif model_ask(route_line([], mp)).startswith("ok:"):
+            exp = "err:MountError"
+        else:
+            exp = "err:IllegalBackReference"
+        if res != exp:
+            bad.append(("mount(): acceptance of a mount point differs from the rule on its normalised path",
+                        dict(ctx, mount_point=mp, spelling=classes[i]), res, dict(expected=exp)))
+    if accepted != expected_ok:
+        mf.close()
+        return
+    live = [args[i] for i in accepted]
+    default_twin = MemoryFS()
+    for mp in live:
+        default_twin.makedirs(P.abspath(P.normpath(mp)), recreate=True)
+    for o, cclass in calls:
+        stats["calls"] += 1
+        stats["pairs"].add((tuple(sorted(set(classes))), cclass))
+        route = parse_route(model_ask(route_line(live, o[1])))
+        del log[:]
+        res = fsops.execute(mf, o)
+        touched = sorted(set(e[0] for e in log))
+        c2 = dict(ctx, call=o, call_path_spelling=cclass)
+        if route == "err":
+            if res != "err:IllegalBackReference" or touched:
+                bad.append(("a call path above the root was not refused", c2, res, dict(touched=touched)))
+            continue
+        if route is None:
+            exp = fsops.execute(default_twin, o)
+            want = []
+        else:
+            k, rel = route
+            exp = fsops.execute(twins[accepted[k]], op_with_path(o, rel))
+            want = [accepted[k]]
+        stray = [t for t in touched if t not in want]
+        if stray:
+            bad.append(("a filesystem other than the routed one was touched", c2, res,
+                        dict(expected=want, touched=touched, log=log[:6])))
+        if res != exp:
+            bad.append(("outcome differs from the routed filesystem's own answer (mount-point / call-path spelling)",
+                        c2, res, dict(expected=exp, routed=route)))
+            break
+        diverged = [i for i in range(len(members)) if snap(members[i]) != snap(twins[i])]
+        if diverged or snap(mf.default_fs) != snap(default_twin):
+            bad.append(("effect differs from the same call on the routed filesystem (mount-point / call-path spelling)",
+                        c2, res, dict(routed=route, members_diverged=diverged,
+                                      default_diverged=snap(mf.default_fs) != snap(default_twin))))
+            break
+        if route is not None and res.startswith("ok:") and not touched:
+            bad.append(("the routed filesystem never received the call", c2, res, dict(routed=route)))
+    mf.close()
+
+
+def spelling_sweep(rnd, seed, thorough, bad):
+    fixtures = spelling_fixtures(rnd, thorough)
+    lines = []
+    for args, classes, calls in fixtures:
+        lines.append(mountable_line(args))
+        for mp in args:
+            lines.append(route_line([], mp))
+    model_prefetch(lines)
+    lines = []
+    for args, classes, calls in fixtures:
+        ok = parse_nats(model_ask(mountable_line(args)))
+        live = [args[i] for i in ok]
+        for o, _c in calls:
+            lines.append(route_line(live, o[1]))
+    model_prefetch(lines)
+    stats = dict(mounts=0, calls=0, pairs=set())
+    for fi, fx in enumerate(fixtures):
+        run_spelling_fixture(fx, seed * 7919 + fi, bad, stats)
+    return dict(fixtures=len(fixtures), mounts=stats["mounts"], calls=stats["calls"],
+                mount_point_classes=len(SPELLINGS), call_path_classes=len(SPELLINGS),
+                class_pairs_driven=len(set((m, c) for ms, c in stats["pairs"] for m in ms)),
+                overlap_shapes=len(OVERLAPS))
+
+
+# --------------------------------------------------------------------------- MultiFS: member-state sweep
+#
+# every public FS method (reflection) x where the path / its ancestors live (write member only, a non-write
+# member only, both, nowhere) x 2-3 members x write member or none.  References: the materialised union in the
+# model's priority order (what reads must see) and a twin of the write member (where mutations must go).
+
+T, NEW, DEEP, BELOW, ANC = "p/q/t", "p/q/new", "p/q/new/deep", "p/q/t/c", "p/q"
+PATH_VARIANTS = [dict(path=T, src=T, dst=NEW), dict(path=NEW, src=T, dst=DEEP), dict(path=DEEP, src=BELOW, dst=NEW),
+                 dict(path=BELOW, src=ANC, dst="p/q2"), dict(path=ANC, src=T, dst="other/new"),
+                 dict(path="p/q/t/n", src=T, dst="p/q/t2")]
+MEMBER_STATES = "EAFD"      # empty / ancestors only / ancestors + file t / ancestors + directory t (with a child)
+SKIP_METHODS = {"close", "lock", "check", "isclosed", "getmeta", "match", "match_glob", "walker_class",
+                "desc"}       # desc() names the filesystem object itself
+MODE_VARIANTS = ["r", "w", "a", "r+", "x", "w+"]
+
+
+def fill_member(m, st, i):
+    tag = str(i).encode()
+    m.writebytes("top%d" % i, tag)
+    m.writebytes("shared", tag)
+    if st == "E":
+        return
+    m.makedirs(ANC)
+    m.writebytes(ANC + "/u%d" % i, b"u" + tag)
+    if st == "F":
+        m.writebytes(T, b"t" + tag)
+    if st == "D":
+        m.makedirs(T)
+        m.writebytes(BELOW, b"c" + tag)
+
+
+def flat(m):
+    """path -> (kind, bytes, abstract mtime) of a MemoryFS, through its entry objects."""
+    out = {}
+
+    def go(e, p):
+        for k, v in e._dir.items():
+            q = p + "/" + k
+            if v.is_dir:
+                out[q] = ("D", None, fsops.canon_mt(v.modified_time))
+                go(v, q)
+            else:
+                out[q] = ("F", v._bytes_file.getvalue(), fsops.canon_mt(v.modified_time))
+    go(m.root, "")
+    return out
+
+
+_PROBE = []
+
+
+def probe_class():
+    """MemoryFS that notes when one of the documented mutating primitives (makedir, openbin in a writing mode,
+    setinfo / remove, removedir - and MemoryFS's own move, movedir, removetree) is attempted on it."""
+    if _PROBE:
+        return _PROBE[0]
+    from fs.memoryfs import MemoryFS
+
+    class Probe(MemoryFS):
+        def __init__(self):
+            super(Probe, self).__init__()
+            self.attempted = set()
+
+    def flag(name, kinds):
+        orig = getattr(MemoryFS, name)
+
+        def f(self, *a, **kw):
+            if name == "openbin":
+                mode = kw.get("mode", a[1] if len(a) > 1 else "r")
+                if not set(str(mode)) & set("wax+"):
+                    return orig(self, *a, **kw)
+            self.attempted.update(kinds)
+            return orig(self, *a, **kw)
+        f.__name__ = name
+        setattr(Probe, name, f)
+    for n in ("makedir", "openbin", "setinfo"):
+        flag(n, ("write",))
+    for n in ("remove", "removedir", "removetree"):
+        flag(n, ("remove",))
+    for n in ("move", "movedir"):
+        flag(n, ("write", "remove"))
+    _PROBE.append(Probe)
+    return Probe
+
+
+def build_union(states, order):
+    """The priority-ordered union as one plain MemoryFS; None when a file and a directory collide."""
+    from fs.memoryfs import MemoryFS
+    u = probe_class()()
+    kinds = {}
+    for i in reversed(order):
+        m = MemoryFS()
+        fill_member(m, states[i], i)
+        for p, (kind, data, _mt) in sorted(flat(m).items()):
+            if kinds.get(p, kind) != kind:
+                return None
+            kinds[p] = kind
+            if kind == "D":
+                u.makedirs(p, recreate=True)
+            else:
+                u.writebytes(p, data)
+    u.attempted.clear()
+    return u
+
+
+def method_calls(thorough, rnd):
+    """[(method, label, factory)] - factory() -> (args, file object or None); enumerated from fs.base.FS."""
+    import inspect
+    import io
+    import datetime
+    import h_reflect
+    from fs.base import FS
+    out, skipped = [], []
+    for name in h_reflect.public_methods():
+        if name in SKIP_METHODS:
+            skipped.append(name)
+            continue
+        try:
+            params = [p for p in inspect.signature(getattr(FS, name)).parameters.values()
+                      if p.kind not in (p.VAR_POSITIONAL, p.VAR_KEYWORD) and p.name != "self"]
+        except (TypeError, ValueError):
+            skipped.append(name)
+            continue
+        pnames = [p.name for p in params]
+        if not set(pnames) & {"path", "dir_path", "src_path"}:
+            if name != "tree":
+                skipped.append(name)
+                continue
+        textual = name in ("writetext", "appendtext", "settext")
+        modes = MODE_VARIANTS if "mode" in pnames else [None]
+        flags = [False, True] if set(pnames) & {"wipe", "create", "overwrite", "recreate"} else [None]
+        for vi, pv in enumerate(PATH_VARIANTS):
+            for mode in modes:
+                for flag in flags:
+                    def factory(params=params, pv=pv, mode=mode, flag=flag, textual=textual, name=name):
+                        args, fobj = [], None
+                        for p in params:
+                            n = p.name
+                            if n in ("path", "dir_path"):
+                                args.append(pv["path"])
+                            elif n == "src_path":
+                                args.append(pv["src"])
+                            elif n == "dst_path":
+                                args.append(pv["dst"])
+                            elif n == "data":
+                                args.append(b"DATA")
+                            elif n == "contents":
+                                args.append(u"TEXT" if textual else b"DATA")
+                            elif n == "text":
+                                args.append(u"TEXT")
+                            elif n == "file":
+                                fobj = io.BytesIO(b"FILE" if name not in ("download", "getfile") else b"")
+                                args.append(fobj)
+                            elif n == "mode":
+                                args.append(mode)
+                            elif n == "info":
+                                args.append({"details": {"modified": fsops.MT_BASE + 7}})
+                            elif n == "namespaces":
+                                args.append(["details"])
+                            elif n == "name" and name == "hash":
+                                args.append("md5")
+                            elif n in ("wipe", "create", "overwrite", "recreate"):
+                                args.append(flag)
+                            elif n == "modified" and name == "settimes":
+                                args.append(datetime.datetime.utcfromtimestamp(fsops.MT_BASE + 9))
+                            elif p.default is not inspect.Parameter.empty:
+                                args.append(p.default)
+                            else:
+                                args.append(None)
+                        return args, (fobj if name in ("download", "getfile") else None)
+                    label = "%s(%s%s%s)" % (name, ",".join(repr(pv[k]) for k in ("path", "src", "dst")
+                                                            if {"path": {"path", "dir_path"}, "src": {"src_path"},
+                                                                "dst": {"dst_path"}}[k] & set(pnames)),
+                                            "" if mode is None else ",mode=%r" % mode,
+                                            "" if flag is None else ",flag=%r" % flag)
+                    out.append((name, vi, label, factory))
+                if name == "tree":
+                    break
+            if name == "tree":
+                break
+    return out, skipped
+
+
+def used_paths(name, vi):
+    import inspect
+    from fs.base import FS
+    pn = set(inspect.signature(getattr(FS, name)).parameters)
+    pv = PATH_VARIANTS[vi]
+    return [pv[k] for k, ns in (("path", ("path", "dir_path")), ("src", ("src_path",))) if pn & set(ns)]
+
+
+def render_value(v):
+    import datetime
+    from fs.info import Info
+    from fs.base import FS
+    if v is None or isinstance(v, (bool, int, float, str, bytes)):
+        return repr(v)
+    if isinstance(v, Info):
+        raw = v.raw
+        d = raw.get("details")
+        return "Info(%r,%r,%s)" % (raw["basic"]["name"], raw["basic"]["is_dir"],
+                                   "-" if d is None else "%r@%s" % (0 if raw["basic"]["is_dir"] else d.get("size"),
+                                                                    fsops.canon_mt(d.get("modified"))))
+    if isinstance(v, datetime.datetime):
+        import calendar
+        return "time:" + fsops.canon_mt(calendar.timegm(v.utctimetuple()))
+    if isinstance(v, FS):
+        return "FS:" + type(v).__name__
+    if isinstance(v, (list, tuple)):
+        return "[" + ",".join(sorted(render_value(x) for x in v)) + "]"
+    if isinstance(v, dict):
+        return "{" + ",".join(sorted("%r:%s" % (k, render_value(x)) for k, x in v.items())) + "}"
+    return "<" + type(v).__name__ + ">"
+
+
+def invoke(obj, name, factory):
+    """Outcome text of one reflected call; returned handles are used (written / read) and closed."""
+    import contextlib
+    import inspect
+    import io
+    import signal
+    args, fobj = factory()
+    old = signal.signal(signal.SIGALRM, fsops._alarm)
+    signal.alarm(5)
+    try:
+        try:
+            with contextlib.redirect_stdout(io.StringIO()):
+                r = getattr(obj, name)(*args)
+            if inspect.isgenerator(r) or (hasattr(r, "__next__") and not hasattr(r, "read")):
+                r = list(r)
+            if hasattr(r, "read") and hasattr(r, "close"):
+                parts = []
+                try:
+                    if r.writable():
+                        try:
+                            r.write(b"H")
+                        except TypeError:
+                            r.write(u"H")
+                        parts.append("written")
+                    if r.readable():
+                        r.seek(0)
+                        parts.append(repr(r.read()))
+                finally:
+                    r.close()
+                out = "ok:handle:" + "|".join(parts)
+            else:
+                out = "ok:" + render_value(r)
+            if fobj is not None:
+                out += "|file=%r" % fobj.getvalue()
+            return out
+        except fsops.Timeout:
+            return "crash:NonTermination"
+        except Exception as e:  # noqa
+            return common.exc_name(e)
+    finally:
+        signal.alarm(0)
+        signal.signal(signal.SIGALRM, old)
+
+
+class MultiFixture(object):
+    def __init__(self, states, prios, write, order):
+        self.states, self.prios, self.write, self.order = states, prios, write, order
+        self.mf = None
+        self.build()
+
+    def build(self):
+        from fs.multifs import MultiFS
+        from fs.memoryfs import MemoryFS
+        if self.mf is not None:
+            self.mf.close()
+        self.mf = MultiFS()
+        self.members = []
+        for i, st in enumerate(self.states):
+            m = MemoryFS()
+            fill_member(m, st, i)
+            self.members.append(m)
+            self.mf.add_fs("m%d" % i, m, write=(self.write == i), priority=self.prios[i])
+        self.base = [flat(m) for m in self.members]
+
+    def describe(self):
+        names = dict(E="empty", A="ancestors p/q only", F="p/q/t is a file", D="p/q/t is a directory")
+        return dict(members=[names[s] for s in self.states], priorities=list(self.prios), write=self.write,
+                    model_order=self.order)
+
+
+def where(states, write):
+    """Which of the four documented situations the fixture is, for the ancestors and for the path itself."""
+    def cls(has):
+        w = write is not None and has[write]
+        o = any(h for i, h in enumerate(has) if i != write)
+        return "both" if w and o else "write-only" if w else "non-write-only" if o else "nowhere"
+    return cls([s != "E" for s in states]), cls([s in "FD" for s in states])
+
+
+def diff_paths(before, after):
+    new = sorted(p for p in after if p not in before or after[p] != before[p])
+    gone = sorted(p for p in before if p not in after)
+    return new, gone
+
+
+def multi_state_fixtures(rnd, thorough):
+    out = []
+    for n in (2, 3):
+        combos = list(itertools.product(MEMBER_STATES, repeat=n))
+        writes = [None] + list(range(n))
+        every = [(c, w) for c in combos for w in writes]
+        if n == 3 and not thorough:
+            # all four situations (write-only / non-write-only / both / nowhere) for ancestors and path, then a sample
+            seen, keep = set(), []
+            rnd.shuffle(every)
+            for c, w in every:
+                k = where(c, w) + (w is None,)
+                if k not in seen:
+                    seen.add(k)
+                    keep.append((c, w))
+            every = keep + rnd.sample(every, 10)
+        for c, w in every:
+            prios = [rnd.choice([0, 0, 1, -1]) for _ in range(n)]
+            out.append((c, prios, w))
+    return out
+
+
+def multi_state_sweep(rnd, thorough, bad):
+    calls, skipped = method_calls(thorough, rnd)
+    fixtures = multi_state_fixtures(rnd, thorough)
+    order_lines = {}
+    for c, prios, w in fixtures:
+        order_lines[(c, tuple(prios), w)] = order_line(prios)
+    model_prefetch(order_lines.values())
+    stats = dict(calls=0, situations=set(), methods=set(), conflicts=0)
+    from fs.memoryfs import MemoryFS
+    for c, prios, w in fixtures:
+        order = parse_nats(model_ask(order_lines[(c, tuple(prios), w)]))
+        fx = MultiFixture(c, prios, w, order)
+        union_ok = build_union(c, order) is not None
+        if not union_ok:
+            stats["conflicts"] += 1
+        sit = where(c, w)
+        stats["situations"].add((len(c), w is None) + sit)
+        # quick tier: every method on every fixture, the argument variants thinned out at random
+        todo = calls if thorough else [x for x in calls if rnd.random() < 0.45]
+        ref = twin = None
+        for name, vi, label, factory in todo:
+            stats["calls"] += 1
+            stats["methods"].add(name)
+            if ref is None and union_ok:
+                ref = build_union(c, order)
+                ref_base = flat(ref)
+            if twin is None and w is not None:
+                twin = probe_class()()
+                fill_member(twin, c[w], w)
+                twin.attempted.clear()
+                twin_base = flat(twin)
+            res = invoke(fx.mf, name, factory)
+            after = [flat(m) for m in fx.members]
+            ctx = dict(fx.describe(), call=label, ancestors_exist=sit[0], path_exists=sit[1])
+            changed = [i for i in range(len(after)) if after[i] != fx.base[i]]
+            ref_res = ref_new = ref_gone = None
+            if union_ok:
+                ref_res = invoke(ref, name, factory)
+                ref_after = flat(ref)
+                ref_new, ref_gone = diff_paths(ref_base, ref_after)
+            # R1: a member other than the write filesystem never gains or changes anything; it may lose a path
+            #     only when the call removes that path from the union
+            for i in changed:
+                if i == w:
+                    continue
+                new, gone = diff_paths(fx.base[i], after[i])
+                if new:
+                    bad.append(("a member other than the write filesystem was written to (%s)" % name, ctx, res,
+                                dict(member=i, paths=new)))
+                elif union_ok and [p for p in gone if p not in ref_gone]:
+                    bad.append(("a member other than the write filesystem lost a path the call does not remove (%s)"
+                                % name, ctx, res, dict(member=i, paths=gone, union_removes=ref_gone)))
+            sig = "%s, path exists: %s" % (name, sit[1])
+            if union_ok:
+                ref_fails = not ref_res.startswith("ok:")
+                attempted = set(ref.attempted)
+                ref.attempted.clear()
+            if w is not None:
+                twin_res = invoke(twin, name, factory)
+                twin_after = flat(twin)
+                if union_ok:
+                    attempted |= twin.attempted
+                twin.attempted.clear()
+            if not union_ok:
+                # a file and a directory collide in the union: only the rules that need no union reference
+                if w is None and res.startswith("ok:") and any(diff_paths(fx.base[i], after[i])[0] for i in changed):
+                    bad.append(("write succeeded without a write filesystem", ctx, res, changed))
+            elif not attempted:
+                # R0: the call does not try to create, write or remove anything on the union: it is a query and the
+                #     union (first member in model order that has the path) answers it; nothing changes
+                allowed = [ref_res]
+                if ref_fails and any(("/" + p) not in ref_base for p in used_paths(name, vi)):
+                    allowed.append("err:ResourceNotFound")      # no member has the path: nobody to delegate to
+                if ref_fails and w is None:
+                    allowed.append("err:ResourceReadOnly")
+                if res not in allowed:
+                    bad.append(("a query is not answered by the highest-priority member that has the path (%s)" % sig,
+                                ctx, res, dict(on_the_union=ref_res)))
+                elif changed:
+                    bad.append(("a query changed a member", ctx, res, changed))
+            elif w is None:
+                # R2: without a write filesystem a creating / writing call is refused with ResourceReadOnly
+                if not ref_fails and ref_new and res != "err:ResourceReadOnly":
+                    bad.append(("creating/writing call without a write filesystem did not raise ResourceReadOnly (%s)"
+                                % sig, ctx, res, dict(on_the_union=ref_res, would_write=ref_new)))
+                elif res.startswith("ok:") and res != ref_res:
+                    bad.append(("answer without a write filesystem is not the union's (%s)" % sig, ctx, res,
+                                dict(on_the_union=ref_res)))
+            else:
+                # R3: a creating / writing call is carried out by the write filesystem as if it were called directly,
+                #     or - for the parts that read - has the union's outcome with the result in the write filesystem
+                as_twin = res == twin_res and after[w] == twin_after
+                if ref_fails:
+                    as_union = res == ref_res and after[w] == fx.base[w]
+                else:
+                    as_union = res == ref_res and all(
+                        p in after[w] and after[w][p][0] == ref_after[p][0] and
+                        after[w][p][1] in (ref_after[p][1], twin_after.get(p, (None, None))[1]) for p in ref_new)
+                all_fail = ref_fails and not twin_res.startswith("ok:")
+                if all_fail:
+                    if res.startswith("ok:") or after[w] != fx.base[w]:
+                        bad.append(("a call that fails on the union and on the write filesystem succeeded (%s)" % sig,
+                                    ctx, res, dict(on_the_union=ref_res, on_the_write_fs_alone=twin_res)))
+                elif not (as_twin or as_union):
+                    bad.append(("a creating/writing call was not carried out by the write filesystem (%s)" % sig,
+                                ctx, res, dict(on_the_union=ref_res, on_the_write_fs_alone=twin_res,
+                                               union_would_write=ref_new,
+                                               write_fs_changes=diff_paths(fx.base[w], after[w]),
+                                               write_fs_alone_changes=diff_paths(twin_base, twin_after))))
+            if w is not None and twin_after != twin_base:
+                twin = None
+            if union_ok and flat(ref) != ref_base:
+                ref = None
+            if changed:
+                fx.build()
+        fx.mf.close()
+    return dict(fixtures=len(fixtures), calls=stats["calls"], methods=len(stats["methods"]),
+                methods_skipped_no_path=sorted(skipped), situations=len(stats["situations"]),
+                file_directory_collision_fixtures=stats["conflicts"], argument_variants=len(calls))
+
+
 def fsops_strip(s):
     import re
     return re.sub(r"\|(N|Si-?\d+)\)", ")", s)
@@ -264,13 +955,25 @@ def run(report):
     nontrivial = set()
     # ---- MountFS
     mcases = mount_cases(rnd, 500 if thorough else 90, thorough)
+    # the model is asked everything in two batches (which mounts are accepted; then every route)
+    model_prefetch([mountable_line(c[0]) for c in mcases] + [route_line([], mp) for c in mcases for mp in c[0]])
+    lines = []
+    for case in mcases:
+        live = [case[0][i] for i in parse_nats(model_ask(mountable_line(case[0])))]
+        lines += [route_line(live, p) for o in case[1] for p in paths_of(o)]
+    model_prefetch(lines)
     for ci, case in enumerate(mcases):
         mps = case[0]
-        accepted_model = common.run_model(["route mountable " + " ".join(tok(m) for m in mps)])[0]
-        accepted, out = run_mount_case(case, report.seed * 1000 + ci)
-        if accepted != [int(x[1:]) for x in accepted_model[1:-1].split(";") if x]:
+        accepted_model = model_ask(mountable_line(mps))
+        accepted, refusals, out = run_mount_case(case, report.seed * 1000 + ci)
+        if accepted != parse_nats(accepted_model):
             bad.append(("mount acceptance differs from the model (overlap rule)", mps, accepted, accepted_model))
             continue
+        for i, err in refusals:
+            exp = "err:MountError" if model_ask(route_line([], mps[i])).startswith("ok:") else "err:IllegalBackReference"
+            if err != exp:
+                bad.append(("mount(): acceptance of a mount point differs from the rule on its normalised path",
+                            dict(mounts=mps, mount_point=mps[i]), err, dict(expected=exp)))
         live = [mps[i] for i in accepted]
         for st in out:
             total += 1
@@ -315,25 +1018,40 @@ def run(report):
                     if not same:
                         bad.append(("member received a path that is not the path relative to its mount",
                                     dict(mounts=mps, call=o), st["outcome"], dict(received=got, expected=rel)))
+            if not compound and len(routes) == 1 and routes[0] is not None and st["outcome"].startswith("ok:") and \
+                    accepted[routes[0][0]] not in st["touched"]:
+                bad.append(("the routed filesystem never received the call", dict(mounts=mps, call=o),
+                            st["outcome"], dict(routed=routes[0], touched=st["touched"])))
             if all(r is not None for r in routes) and st["default_changed"] and o[0] not in ("makedirs",):
                 bad.append(("a call routed to a mount changed the default filesystem", dict(mounts=mps, call=o),
                             st["outcome"], None))
+    # ---- MountFS: mount-point spelling classes x call-path spelling classes (twin oracle)
+    spell_cov = spelling_sweep(rnd, report.seed, thorough, bad)
+    total += spell_cov["calls"] + spell_cov["mounts"]
     # ---- MultiFS
     mtotal = 0
-    for ci in range(700 if thorough else 140):
-        case = multi_case(rnd)
+    mcs = [multi_case(rnd) for _ in range(700 if thorough else 140)]
+    model_prefetch([order_line(c[0]) for c in mcs])
+    for ci, case in enumerate(mcs):
         steps, b, order = run_multi_case(case, report.seed * 2000 + ci)
         mtotal += steps
         nontrivial.add(("multi", tuple(case[0]), case[1]))
         for x in b:
             bad.append((x[0], dict(priorities=case[0], write=case[1], call=x[1]), x[2], x[3]))
     total += mtotal
+    # ---- MultiFS: every FS method x where the path and its ancestors live
+    state_cov = multi_state_sweep(rnd, thorough, bad)
+    total += state_cov["calls"]
     seen = set()
+    pending_seen = {}
     for why, ctx, outc, extra in bad:
         sig = why
         known = report.known_match(sig)
         if known:
             report.known_finding(known)
+            continue
+        if sig in PENDING_FINDINGS:
+            pending_seen[sig] = pending_seen.get(sig, 0) + 1
             continue
         if sig in seen or len(seen) >= 8:
             continue
@@ -342,16 +1060,39 @@ def run(report):
                               outcome=outc, detail=json.loads(json.dumps(extra, default=repr)),
                               theorem="Props/C17.v"))
     cov = dict(evaluations=total, distinct_nontrivial=len(nontrivial),
-               rule="MountFS: every ordered set of <= 3 mount points from {/a, /ab, /a/b, /c, /} with pre-filled "
-                    "recording members x random histories (odd spellings) - expected member and relative path from "
-                    "the extracted routing model; MultiFS: 1-4 members, priorities from {0,0,1,-1}, any write layer "
-                    "or none x random histories; non-trivial = distinct (configuration, call kind, routed members)",
+               rule="MountFS: every ordered set of <= 3 mount points from {/a, /ab, /a/b, /c, /} (half of them written "
+                    "in a non-normal spelling) with pre-filled recording members x random histories (odd spellings) - "
+                    "expected member and relative path from the extracted routing model; plus every mount-point "
+                    "spelling class x every call-path spelling class with the routed member's own answer as oracle; "
+                    "MultiFS: 1-4 members, priorities from {0,0,1,-1}, any write layer or none x random histories; "
+                    "plus every public FS method x where the path / its ancestors live x 2-3 members x write member "
+                    "or none; non-trivial = distinct (configuration, call kind, routed members)",
                samples=[dict(mounts=mcases[0][0], history=[list(map(str, o)) for o in mcases[0][1]][:4])],
                disagreements_checked=len(bad), multifs_steps=mtotal,
+               mount_spelling_sweep=spell_cov, multifs_member_state_sweep=state_cov,
+               spelling_classes=[n for n, _ in SPELLINGS],
+               pending_findings_seen=pending_seen,
                traces_validated_against_impl=total - len(bad))
     return report.finish(proof, cov, assumptions=[
         "derived calls (move/copy/movedir/copydir/removetree/makedirs) may touch every member their path arguments "
-        "route to; members are MemoryFS instances behind recording WrapFS proxies"])
+        "route to; members are MemoryFS instances behind recording WrapFS proxies",
+        "spelling sweep: the model (Route.v mount_add / mount_delegate, which normalise the mount point) says which "
+        "mounts are accepted and where a call goes; the expected outcome and effect are those of the same call made "
+        "directly on an identically filled twin of the routed member with the relative path; the default tree is "
+        "expected to contain the normalised mount points (computed with fs.path.normpath, checked against the model "
+        "by C12); a refused mount must raise MountError (inside an existing mount) or IllegalBackReference (above "
+        "the root) - the exception classes are taken from the documentation, the model only says accepted / refused",
+        "member-state sweep: the routing model only gives the member order (route order); the union reference is "
+        "that order materialised into one plain MemoryFS in Python, the write-filesystem reference is a twin of the "
+        "write member. A call is a query when it attempts none of the documented mutating primitives (makedir, "
+        "openbin in a writing mode, setinfo, remove, removedir) on either reference: it must give the union's answer "
+        "(ResourceNotFound also accepted when no member has the path). Otherwise it must behave exactly like the "
+        "same call on the write filesystem alone, or have the union's outcome with every created path present in "
+        "the write filesystem; when both references fail only 'fails and changes nothing' is required (which error "
+        "is not a routing matter); without a write filesystem a call that would create or change something must "
+        "raise ResourceReadOnly; members other than the write filesystem may only lose paths the call removes from "
+        "the union. Fixtures where a file and a directory collide across members are run with the member-change "
+        "rules only (no plain filesystem can represent that union)"])
 
 
 def replay(report, path):
